@@ -76,6 +76,21 @@ def generate(rng, tier, idx):
         if 'gaussian_kde' in str(config).lower() or 'GaussianKDE' in str(config):
             if rng.random() < 0.3:
                 table['n'] = rng.choice([600, 700])     # points x kernels beyond 1e6 at n=2000
+    if not closed and rng.random() < 0.08:
+        j = rng.randrange(len(table['margs']))
+        table['margs'][j] = 'constant_bigint'
+    if not closed and rng.random() < 0.08 and 'affine' not in table:
+        # a column whose values and spread are tiny (1e-7): the numerical inverse of a kernel
+        # estimate has to resolve it
+        table['affine'] = [[0.0, 1.0]] * len(table['margs'])
+        j = rng.randrange(len(table['margs']))
+        table['affine'] = [list(a) for a in table['affine']]
+        table['affine'][j] = [2e-7, 1e-7]
+        colname = (table.get('names') or ['c%d' % i for i in range(len(table['margs']))])[j]
+        config = {'form': 'dict', 'ctor': {'distribution': {'__map__': {
+            str(nm): ({'__cls__': gmvlib.FAM['kde']} if nm == colname
+                      else {'__cls__': gmvlib.FAM['gaussian']})
+            for nm in (table.get('names') or ['c%d' % i for i in range(len(table['margs']))])}}}}
     run = {'table': table, 'config': config, 'seed': zoo.rand_seedspec(rng),
            'fit_state': rng.randrange(2**31), 'g0': rng.randrange(2**31), 'closed': closed}
     if not closed and rng.random() < 0.2:
@@ -162,7 +177,9 @@ def _check_sample(ctx, run, model, train_df, n, recognised):
         col = train_df[name].to_numpy()
         if len(np.unique(col)) == 1:
             ctx.probes['constant_column_sampled'] += 1
-            if not np.all(S[name].to_numpy() == col[0]):
+            want = col[0].item() if hasattr(col[0], 'item') else col[0]
+            got = [v.item() if hasattr(v, 'item') else v for v in S[name].to_numpy()[:50]]
+            if not all(g == want for g in got):          # Python compares int and float exactly
                 ctx.violate('a_constant_column_reproduced', SUBJECT,
                             'column %r: training constant %r, sampled %r'
                             % (name, col[0], S[name].to_numpy()[:3].tolist()), **cond)
@@ -356,6 +373,17 @@ def execute(run):
     if run.get('closed'):
         _check_recovery(ctx, run, model, train_df, R_true)
     _check_marginals_fitted_to_own_column(ctx, run, model, train_df)
+    # a kernel-estimate marginal is sampled through the library's own numerical inverse of its
+    # cdf: the column can follow the fitted marginal only if that inverse inverts
+    for name, uni in zip(model.columns, model.univariates):
+        inst = getattr(uni, '_instance', None) or uni
+        if type(inst).__name__ == 'GaussianKDE' and not gmvlib.is_constant_uni(uni):
+            ctx.stats['kde_inverse_checks'] += 1
+            if not gmvlib.marginal_consistent(inst):
+                ctx.violate('c_kde_marginal_inverse_inverts_its_cdf', SUBJECT,
+                            'column %r: cdf(percent_point(p)) != p for the fitted kernel estimate '
+                            '(|p - cdf(ppf(p))| > 1e-6 on a probability grid)' % (name,),
+                            d=len(model.columns), config=run['config']['form'])
     recognised = [False]
     # protocol recognition probe, out of band: a copy of the model samples 16 rows under an
     # unrelated global state; calls with n < 8 are then checked exactly too
